@@ -139,7 +139,7 @@ Fixpoint check_fgo_M_from (f : vfgo) (h : list fstep_rec) : bool :=
 
 Definition fgo_init (auto : bool) (rows labels : list val) (blocks : list vblk) : res vfgo :=
   match igo_init auto labels with
-  | Ok c => Ok (mk_fgo rows c (tb_of_blocks val (zlen rows) blocks))
+  | Ok c => Ok (mk_fgo rows c (tb_of_blocks val v_resolve (zlen rows) blocks))
   | Err e => Err e
   end.
 
@@ -271,7 +271,7 @@ Fixpoint check_world_M_from (w : vworld) (hist : list wstep_rec) : bool :=
 
 Definition check_world_M (k : fcls) (auto : bool) (rows labels : list val) (blocks : list vblk) (hist : list wstep_rec) : bool :=
   match igo_init auto labels with
-  | Ok c => check_world_M_from (mk_world [(negb (cls_go k), c)] [tb_of_blocks val (zlen rows) blocks] [mk_frm k rows 0%nat 0%nat]) hist
+  | Ok c => check_world_M_from (mk_world [(negb (cls_go k), c)] [tb_of_blocks val v_resolve (zlen rows) blocks] [mk_frm k rows 0%nat 0%nat]) hist
   | Err _ => false
   end.
 
